@@ -7,7 +7,7 @@ from vlib.runner import Stats, Violation, sut
 ID = "C10"
 RULE = (
     "case = non-overlapping layout of 0..9 events with distinct timestamps on a ms grid (gaps from {0,1,2,3,4 ms, long}, lengths incl. 0, "
-    "labels {a,b}), shuffled, x pulsetime from {0,1,2,3 ms, 1 s, 5 s}. Oracle on integers: output all positive length, pairwise non-overlapping; "
+    "labels {a,b}), shuffled, x pulsetime from {0,1,2,3 ms, 1 s, 5 s}, or exactly one of the layout's gaps, or any whole number of ms up to 7 s. Oracle on integers: output all positive length, pairwise non-overlapping; "
     "union(output) == union(input) + every gap g with 0 < g <= P between consecutive inputs, exactly (so longer gaps are intact and no other time is added); "
     "per label, each input interval lies inside the union of that label's outputs; input list/events deep-equal before/after. "
     "Non-trivial = >= 3 events with at least one gap <= P (and > 0) and one gap > P."
@@ -27,6 +27,13 @@ _lens = st.one_of(st.sampled_from([0, 1, 1, 2, 3, 5, 1000]), st.integers(0, 20),
 def strategy(draw, tier="quick"):
     lay = draw(iv.nonoverlap_layout(max_n=9, distinct_starts=True, gaps=_gaps, lens=_lens))
     P = draw(st.sampled_from([0, 1, 2, 3, 3, 4, 1000, 5000, 5000]))
+    srt_ = sorted(lay, key=lambda e: e["s"])
+    gaps_ = [b["s"] - (a["s"] + a["d"]) for a, b in zip(srt_, srt_[1:]) if b["s"] - (a["s"] + a["d"]) > 0]
+    pm = draw(st.integers(0, 3))
+    if pm == 0 and gaps_:
+        P = draw(st.sampled_from(gaps_))  # a gap exactly at the pulsetime, whatever odd value that is (1.001 s, 4.06 s, ...)
+    elif pm == 1:
+        P = draw(st.integers(0, 7000))
     return {"events": iv.shuffled(draw, lay), "P_ms": P}
 
 
